@@ -75,6 +75,14 @@ def answer (toks : List String) : String :=
       let w (sp : Bool) : String := match whiteVertlineMethod r (o sp) with
         | some h => showNats h | none => "raise"
       s!"{one false} {one true} {w false} {w true}"
+  -- round 5: the distance kernel of the matrix mode, THE LOOPS AS WRITTEN (`supremum_rp_loops`)
+  | ["xdistloops", rnd, n, dim, e] =>
+      let D := StructC08.supremum_rp_loops (xOps (rndOf rnd)) n.toNat! dim.toNat! (accX (xMat e))
+      let sx (x : X) : String := match x with
+        | .fin q => showRat q | .pinf => "inf" | .ninf => "-inf" | .nan => "nan"
+      let rows := (List.range n.toNat!).map fun (a : Nat) =>
+        join ((List.range n.toNat!).map fun (b : Nat) => sx (D (a : Int) (b : Int)))
+      if rows.isEmpty then "-" else join rows ";"
   -- round 5: the rounding itself, `|a - b|` of the pairs (or of `q - 0`) rounded to binary64
   | ["rnd64", d] => showRats ((pairs d).map fun (a, b) => rnd64 (if a ≤ b then b - a else a - b))
   -- the hand model (round 1), kept executable
